@@ -56,6 +56,30 @@ def exception_class_name(raise_node):
     return d.split('.')[-1]
 
 
+def resolve_locals(fn, expr):
+    '''expr with once-assigned pure locals of fn replaced by their values, in expression normal form: for rules that only ask
+    WHICH values reach a place (not when they are computed)'''
+    from .. import normal
+    single, stores = {}, {}
+    for n in ast.walk(fn):
+        if isinstance(n, ast.Name) and isinstance(n.ctx, ast.Store):
+            stores[n.id] = stores.get(n.id, 0) + 1
+        if isinstance(n, ast.Assign) and len(n.targets) == 1 and isinstance(n.targets[0], ast.Name) and normal.is_pure(n.value):
+            single.setdefault(n.targets[0].id, []).append(n.value)
+    mapping = {k: v[0] for k, v in single.items() if len(v) == 1 and stores.get(k) == 1}
+    cur = expr
+    for _ in range(6):
+        if not any(isinstance(x, ast.Name) and x.id in mapping for x in ast.walk(cur)):
+            break
+        cur = normal._Subst(mapping).visit(normal.clone(cur))
+    new = normal._Expr().visit(normal.clone(cur))
+    new = normal._Expr().visit(new)
+    for n in ast.walk(new):
+        if not hasattr(n, 'lineno') and isinstance(n, (ast.expr, ast.stmt)):
+            ast.copy_location(n, expr)
+    return new
+
+
 class AssocModel(object):
     '''
     The platform model of an association, derived from the source of
@@ -160,7 +184,13 @@ class AssocModel(object):
             raise AnalysisError('%s: Association(...) does not receive both links' % loc(ass_call))
         # key maps
         self.key_maps = {}
-        for node, env in pm.find('_L.key_map = dict(zip(_A, _B))', fn):
+        nfn = repo.nfunc('xtuml.meta:MetaModel.define_association')     # normal form: one spelling of the dict building
+        for node, env in pm.find('_L.key_map = _V', nfn):
+            v = resolve_locals(nfn, env['_V'])
+            m2 = pm.match('dict(zip(_A, _B))', v)
+            if m2 is None:
+                continue
+            env = dict(env, **m2)
             lv = env['_L']
             if isinstance(lv, ast.Name):
                 for field, info in self.links.items():
